@@ -39,11 +39,13 @@ func scriptCorpus(c *Ctx, nRandom int, swEvery, exEvery int) (progs []*Prog, src
 		return nil, nil, false
 	}
 	for i, ln := range files["switches.ndjson"] {
-		if !sampled(i, c.Seed, swEvery) {
-			continue
-		}
 		var f swFam
 		if json.Unmarshal([]byte(ln), &f) != nil {
+			continue
+		}
+		// stratified: the rare shape "default with a body, then two or more body-less cases" (its own
+		// path in the emitter) is always taken, the rest one in swEvery
+		if !rareSwitchShape(&f) && !sampled(i, c.Seed, swEvery) {
 			continue
 		}
 		p := swProgram(fmt.Sprintf("W%d", i), &f)
@@ -65,6 +67,22 @@ func scriptCorpus(c *Ctx, nRandom int, swEvery, exEvery int) (progs []*Prog, src
 		srcs = append(srcs, RenderProg(p, Style{R: r, Parens: i%2 == 0}))
 	}
 	return progs, srcs, true
+}
+
+// rareSwitchShape: a default with a body followed by at least two body-less cases.
+func rareSwitchShape(f *swFam) bool {
+	for d, cs := range f.Cases {
+		if cs.IsDef && cs.Body != "empty" {
+			n := 0
+			for _, later := range f.Cases[d+1:] {
+				if later.Body == "empty" {
+					n++
+				}
+			}
+			return n >= 2
+		}
+	}
+	return false
 }
 
 func checkC05(c *Ctx) {
